@@ -1,4 +1,5 @@
 import EdpVerif.Impl.PidAlloc
+import EdpVerif.Generated.Misc
 /-!
 Model of the remote-call bookkeeping of `crates/edp_node/src/node.rs`:
 `Node::rpc_call_raw_with_timeout`, the `Send` arm of `Node::route_message`, and the part of `spawn_receiver_task`
@@ -16,12 +17,19 @@ Shared state
 * `lock`     — the `tokio::sync::Mutex<Connection>` of each connection (by connection id).
 * per caller — program counter, reply pid, the one-shot channel (`val`: value sent and not yet taken, `txDropped`: sender
                dropped without sending, `rxAlive`: the receiving half still exists).
-* `recv`     — one receiver task per connection; each runs `route_message` on one inbound message at a time.
+* `recv`     — one receiver task per connection (receiver `r` belongs to connection `r`); each runs `route_message` on
+               one inbound message at a time, until its `receive_message_from_read_half` fails and it leaves its loop.
+* `conns`    — `connections : DashMap<String, Arc<Mutex<Connection>>>` as the set of connection ids that are in the
+               table. Every id is there at the start (an id that no call has looked up yet is a connection not yet
+               made); a receiver that stops removes its id for good — a later `Node::connect` to the same name makes
+               a new connection object with a new mutex and a new receiver task, which is another id.
 
 Environment (everything the property quantifies over): the peer hands ANY message to ANY receiver at any time
 (`rStart`), `connections.get` finds a connection or not (`lookup`), the write succeeds or fails (`send`), timers fire
 at any time (`timeout`), the owner of a call future may drop it at any suspension point (`drop`), other parts of the
-node allocate pids, spawn processes and let them exit. The scheduler picks any enabled step.
+node allocate pids, spawn processes and let them exit, `Node::start` changes the creation the allocator stamps on new
+pids (`start`, at any time, to any value: calls made before `start` carry the placeholder creation 1). The scheduler
+picks any enabled step.
 
 The code modelled is the repaired one: entry removed when the request cannot be sent (d080091) and a drop guard that
 removes the entry when the call future goes away for whatever reason (notes/C17.md).
@@ -77,6 +85,7 @@ inductive RPc
   | idle                                   -- in `receive_message_from_read_half`
   | routing (msg : Msg) (m : Nat)          -- `route:before_pending_remove`: the registry had no such process
   | holding (i : Nat) (m body : Nat)       -- removed the entry, owns caller `i`'s sender; next: `sender.send(body)`
+  | stopped                                -- left the loop (`break`), did `connections.remove`; the task is over
 deriving DecidableEq, Repr, Inhabited
 
 structure St where
@@ -87,6 +96,7 @@ structure St where
   pending : List (Pid × Nat) := []
   recv : Nat → RPc := fun _ => .idle
   lock : Nat → Option Nat := fun _ => none
+  conns : Nat → Bool := fun _ => true      -- connection ids in `connections`
   procs : List Pid := []
   inbox : List Msg := []                   -- ghost: every message given to `route_message`, in order
   procLog : List (Pid × Nat) := []         -- ghost: (process, message number) delivered to local processes
@@ -149,9 +159,11 @@ inductive Step
   | rStart (r : Nat) (msg : Msg)       -- receiver `r` got `Send{to_pid}` + payload; `registry.get(&pid)`
   | rRemove (r : Nat)                  -- `pending_rpcs.remove(&pid_str)`
   | rSend (r : Nat)                    -- `sender.send(body)`
+  | rStop (r : Nat)                    -- `receive_message_from_read_half` failed for good: `break`, `connections.remove`
   | spawnProc                          -- `Node::spawn`: allocate a pid, register the process
   | procExit (p : Pid)                 -- the process leaves the registry
   | otherAlloc                         -- any other `allocate()` (`send_remote` takes one per message)
+  | start (c : Nat)                    -- `Node::start`: `creation.store(c)`, `pid_allocator.set_creation(c)` (EPMD's answer)
 deriving Repr
 
 /-- one atomic step; `none` = not enabled in this state -/
@@ -176,7 +188,7 @@ def step (s : St) : Step → Option St
     else none
   | .lookup i (some cid) =>
     let c := s.callers i
-    if c.pc = .inserted then some (s.setCaller i { c with pc := .found, conn := cid }) else none
+    if c.pc = .inserted ∧ s.conns cid = true then some (s.setCaller i { c with pc := .found, conn := cid }) else none
   | .lookup i none =>
     let c := s.callers i
     if c.pc = .inserted then
@@ -260,12 +272,17 @@ def step (s : St) : Step → Option St
       some { s with recv := upd s.recv r .idle,
                     callers := if c.rxAlive then upd s.callers i { c with val := some (m, b) } else s.callers }
     | _ => none
+  | .rStop r =>
+    if s.recv r = .idle then some { s with recv := upd s.recv r .stopped, conns := upd s.conns r false } else none
   | .spawnProc =>
     match alloc s.alloc with
     | (.ok p, a') => some { s with alloc := a', nalloc := s.nalloc + 1, procs := p :: s.procs }
     | (_, a') => some { s with alloc := a', nalloc := s.nalloc + 1 }
   | .procExit p => some { s with procs := s.procs.filter (fun q => q ≠ p) }
   | .otherAlloc => some { s with alloc := (alloc s.alloc).2, nalloc := s.nalloc + 1 }
+  -- `connect` and `rpc_call*` do not look at `started`, so calls may exist before this step; the step is enabled at any
+  -- time with any value (more than the code allows: `started.swap(true)` lets only the first `start` through)
+  | .start c => some { s with alloc := s.alloc.setCreation c }
 
 /-- run a schedule; a step that is not enabled is skipped -/
 def run (s : St) (σ : List Step) : St := σ.foldl (fun s e => (step s e).getD s) s
@@ -279,5 +296,93 @@ def runStrict (s : St) : List Step → Option St
 
 /-- every call that was started has returned (or was dropped) -/
 def St.quiescent (s : St) : Prop := ∀ i, (s.callers i).pc = .start ∨ (s.callers i).pc = .done
+
+/-! ### the wrappers `rpc_call_with_timeout` / `rpc_call` (and the `erlang_*` calls built on them)
+
+`rpc_call_with_timeout` awaits `rpc_call_raw_with_timeout` (its only await: dropping the wrapper drops the raw call at
+one of the raw call's suspension points), passes an error on (`?`) and applies `OwnedTerm::into_rex_response` to the
+reply. It touches no shared state. `rpc_call` and `rpc_call_raw` only supply `DEFAULT_RPC_TIMEOUT`. -/
+
+/-- what a wrapped call returns -/
+inductive WOutcome
+  | value (m v : Nat)        -- `Ok(result)`: the second element of the `{rex, Result}` reply number `m`
+  | badShape (m : Nat)       -- `Err(TermConversion)`: reply number `m` is not a `{rex, _}` pair
+  | err (o : Outcome)        -- the raw call's error, unchanged
+deriving DecidableEq, Repr
+
+/-- `response.into_rex_response().map_err(Error::from)` after `?`; `unwrap` stands for `into_rex_response` on bodies -/
+def wrapOutcome (unwrap : Nat → Option Nat) : Outcome → WOutcome
+  | .reply m b => match unwrap b with
+    | some v => .value m v
+    | none => .badShape m
+  | o => .err o
+
+/-! ### the source as the translator lists it (`Generated/Misc.lean`, `tools/gen_misc.py gen_c17`) -/
+
+/-- where the call future is suspended at each `.await` of `rpc_call_raw_with_timeout`; `none` for a step that is not an await -/
+def awaitPc : String → Option Pc
+  | "yield:rpc:before_insert" => some .allocated
+  | "yield:rpc:after_insert" => some .inserted
+  | "yield:rpc:before_lock" => some .found
+  | "await:lock" => some .found
+  | "await:send_to_name" => some .locked
+  | "yield:rpc:after_send" => some .sent
+  | "await:timeout" => some .waiting
+  | "yield:rpc:timed_out" => some .timedOut
+  | _ => none
+
+/-- the translator marks every `.await` with one of the prefixes `await:` / `yield:` (an await it does not know is `await:?`) -/
+def isAwait (t : String) : Bool :=
+  match t.toList with
+  | 'a' :: 'w' :: 'a' :: 'i' :: 't' :: ':' :: _ => true
+  | 'y' :: 'i' :: 'e' :: 'l' :: 'd' :: ':' :: _ => true
+  | _ => false
+
+/-- the model's reading of the source: each listed step with the model step kind that performs it -/
+def sourceSteps : List (String × String) :=
+  [("allocate", "begin"), ("expect", "begin"), ("channel", "begin"),
+   ("yield:rpc:before_insert", "-"), ("insert", "insert"), ("guard", "insert"),
+   ("yield:rpc:after_insert", "-"), ("get", "lookup"),
+   ("yield:rpc:before_lock", "-"), ("await:lock", "lock"), ("await:send_to_name", "send"),
+   ("remove", "send false"), ("return:err", "send false"),
+   ("yield:rpc:after_send", "-"),
+   ("remove", "lookup none"), ("return:err", "lookup none"),
+   ("await:timeout", "recvReply|recvClosed|timeout"),
+   ("yield:rpc:timed_out", "-"), ("remove", "timeoutRemove"),
+   ("try:RpcTimeout", "finish"), ("try:RpcCancelled", "finish"), ("return:ok", "finish")]
+
+/-- every use of the node's allocator in node.rs (`Gen.NODE_PID_ALLOCATOR_USES`) with the part of the model that stands for
+it; `none` = a use the model does not know (an assignment of a new allocator, a new caller of `allocate`, ...) -/
+def allocUseStep : String → Option String
+  | "struct::field" => some "St.alloc"
+  | "with_hidden:let=new" => some "St.init"
+  | "with_hidden:,init" => some "St.init"
+  | "start:.set_creation()" => some "start"
+  | "spawn:.allocate()" => some "spawnProc"
+  | "send_remote:.allocate()" => some "otherAlloc"
+  | "rpc_call_raw_with_timeout:.allocate()" => some "begin"
+  | _ => none
+
+/-- every use of `self.creation` (the node's own copy of the creation; calls never read it) -/
+def creationUseStep : String → Option String
+  | "start:.store()" => some "start"
+  | "make_reference:.load()" => some "-"
+  | "creation:.load()" => some "-"
+  | _ => none
+
+/-- `format!` with `{}` placeholders filled by decimal numbers -/
+def renderFmt : List Char → List Nat → List Char
+  | '{' :: '}' :: r, n :: ns => Nat.toDigits 10 n ++ renderFmt r ns
+  | c :: r, ns => c :: renderFmt r ns
+  | [], _ => []
+
+def Pid.field (p : Pid) : String → Nat
+  | "id" => p.id
+  | "serial" => p.serial
+  | "creation" => p.creation
+  | _ => 0
+
+/-- the key text as the source builds it: the format string and field list the translator read -/
+def keyCharsFrom (f : String × List String) (p : Pid) : List Char := renderFmt f.1.toList (f.2.map (Pid.field p))
 
 end Edp.Impl.Rpc
